@@ -14,7 +14,13 @@ RULE = ("explicit-state search: breadth-first over sequences of deps-log operati
         "length 1-3, and after each every continuation of length <= 2 (3 in thorough). Oracles on the real DepsLog: Load "
         "never errors, GetDeps of every node equals the independent reader's last-wins fold over the complete records before "
         "the first malformed byte, the file is cut exactly there, ids stay dense, a completed session leaves a well-formed "
-        "file whose reload equals the in-memory state at close, recompaction drops exactly the dead outputs")
+        "file whose reload equals the in-memory state at close, recompaction drops exactly the dead outputs; the process is "
+        "killed at every file operation of every recompaction (a write may land partly): the live records are still there. "
+        "Process level (engine A, real ninja main): histories of depth <= 3/4 over {edits, delete an output, 1100 more records "
+        "of one output (long history), a statement stops using deps / leaves the manifest, builds (full, single target, "
+        "failing), -t recompact, -t deps, -t cleandead, -t restat}, and a statement with deps whose implicit output is "
+        "supplied by dyndep information: every invocation keeps, unchanged, the record of every output that still has a "
+        "statement using deps and whose command it did not run")
 
 
 def main(argv):
@@ -28,7 +34,7 @@ def main(argv):
         runs = [("depth3", ["depth=3", "cont=2", "garbage=2"]), ("maxrecord", ["depth=1", "cont=1", "garbage=1", "long=1"])]
     else:
         runs = [("depth3", ["depth=3", "cont=3", "garbage=2", "thorough=1"]), ("depth4", ["depth=4", "cont=2", "garbage=1"]), ("maxrecord", ["depth=2", "cont=2", "garbage=1", "long=1"])]
-    total = {"states": 0, "transitions": 0, "tears": 0, "continuations": 0, "ops": 0, "loads": 0, "garbage_tails": 0}
+    total = {"states": 0, "transitions": 0, "tears": 0, "continuations": 0, "ops": 0, "loads": 0, "garbage_tails": 0, "crash_points": 0}
     samples, fams = [], []
     for name, args in runs:
         cmds = [[exe, "shard=%d" % i, "nshards=%d" % NCPU] + args for i in range(NCPU)]
@@ -44,7 +50,7 @@ def main(argv):
                 total["states"] += val["states"]; total["transitions"] += val["transitions"]
                 fam["states"] = val["states"]; fam["transitions"] = val["transitions"]
                 first = False
-            for k in ("tears", "continuations", "ops", "loads", "garbage_tails"):
+            for k in ("tears", "continuations", "ops", "loads", "garbage_tails", "crash_points"):
                 total[k] += val[k]; fam[k] = fam.get(k, 0) + val[k]
             samples += val["samples"][:1]
             seen = set()
@@ -56,6 +62,16 @@ def main(argv):
                             {"engine": "lx_depslog", "trail": v["trail"], "clause": v["clause"], "detail": v["detail"],
                              "args": [a for a in args if a.startswith(("long=", "thorough="))]})
         fams.append(fam)
+    # ---- process level (engine A): real ninja invocations on an existing deps log ----------------
+    import nxcheck
+    import templates_c09
+    agg = nxcheck.run(c, templates_c09.templates(c.tier), ["C09"], seconds=600, tag="c09")
+    fams.append({"family": "process level: builds / -t recompact / -t deps / automatic recompaction after a long history (engine A)",
+                 "scenarios": agg["scenarios"], "states": agg["states"], "transitions": agg["transitions"],
+                 "invocations": agg["invocations"], "incomplete_scenarios": agg["incomplete_scenarios"]})
+    total["states"] += agg["states"]
+    total["transitions"] += agg["transitions"]
+    total["ops"] += agg["invocations"]
     uniq = {}
     for what, p in c.violations:
         uniq.setdefault(what.split(":")[0], (what, p))
@@ -66,6 +82,7 @@ def main(argv):
         "traces_validated_against_impl": total["ops"],
         "evaluations": total["ops"], "distinct_nontrivial": total["tears"] + total["garbage_tails"],
         "rule": RULE, "clean_states": total["states"], "tear_points": total["tears"], "garbage_tails": total["garbage_tails"],
+        "recompaction_crash_points": total["crash_points"],
         "continuation_steps": total["continuations"], "loads_compared_with_reference_reader": total["loads"],
         "families": fams, "samples": samples[:4] or [["session()", "tear@13", "load"]],
         "explanation": "every operation is executed on the real DepsLog; the reference reader is src/common/logparse.h",
